@@ -94,6 +94,18 @@ VerdictJphen ==
 \cup Viol("JPHEN_YES_NO_MATRIX", \A s \in 1..4 : /\ ((Ev.isp[s][1] = 1) <=> Hidden(Ev.M[s][1]))
                                                    /\ ((Ev.isp[s][2] = 1) <=> Hidden(Ev.M[s][2]))
                                                    /\ Ev.isp[s][3] = 0)
+     \* check_coordinates(X, Y) is the unsigned perspective distance of the same coordinates
+\cup Viol("JPHEN_CHECK_COORDINATES", \A s \in 1..4 : Ge(Ev.cc[s], Zero) /\ Within(Ev.cc[s], Abs(Ev.M[s][1]), Dec(1, 9)))
+
+\* jupiter_system_angles(e) = (psi, node): psi, the node of Jupiter's equator on the ecliptic of date, moves with the general
+\* precession less its own 0.076 deg/century regression (1.32 deg per Julian century); node is the ascending node of the
+\* orbit of Jupiter and must be the one Jupiter.orbital_elements_mean_equinox gives (light time moves it by 1e-6 deg only)
+VerdictJsys ==
+  IF Ev.oc # "ok" THEN {"JSYS_TOTAL"} ELSE
+     Viol("JSYS_NODE_IS_THE_ORBIT_NODE", Within(Ev.node, Ev.onode, Dec(1, 5)))
+\cup Viol("JSYS_PSI_PRECESSES", Ge(Sub(Ev.psi2, Ev.psi), Dec(131, 2)) /\ Le(Sub(Ev.psi2, Ev.psi), Dec(133, 2)))
+\cup Viol("JSYS_NODE_RATE", Ge(Sub(Ev.node2, Ev.node), Dec(101, 2)) /\ Le(Sub(Ev.node2, Ev.node), Dec(104, 2)))
+\cup Viol("JSYS_RANGES", Ge(Ev.psi, FromInt(314)) /\ Le(Ev.psi, FromInt(320)) /\ Ge(Ev.node, FromInt(99)) /\ Le(Ev.node, FromInt(102)))
 
 \* ---- helpers no other driver reaches -------------------------------------------------------------------------
 PiG == Add(FromInt(3), Add(Dec(1415926535, 10), Add(Dec(8979, 14), Dec(32, 16))))
@@ -270,7 +282,7 @@ Verdict == CASE Ev.k = "stat" -> VerdictStat [] Ev.k = "cal" -> VerdictCal [] Ev
              [] Ev.k = "sunphys" -> VerdictSunPhys [] Ev.k = "ring" -> VerdictRing [] Ev.k = "libr" -> VerdictLibr
              [] Ev.k = "refr" -> VerdictRefr [] Ev.k = "carr" -> VerdictCarr [] Ev.k = "epk" -> VerdictEpk
              [] Ev.k = "angv" -> VerdictAngv [] Ev.k = "mag" -> VerdictMag [] Ev.k = "moonk" -> VerdictMoonk
-             [] Ev.k = "jsat" -> VerdictJsat [] Ev.k = "jphen" -> VerdictJphen
+             [] Ev.k = "jsat" -> VerdictJsat [] Ev.k = "jphen" -> VerdictJphen [] Ev.k = "jsys" -> VerdictJsys
              [] Ev.k = "macc" -> VerdictMacc [] Ev.k = "rdms" -> VerdictRdms [] Ev.k = "setang" -> VerdictSetAng
              [] Ev.k = "ecleq" -> VerdictEclEq [] Ev.k = "sline" -> VerdictSline [] Ev.k = "mpaa" -> VerdictMpaa
              [] Ev.k = "jdelta" -> VerdictJdelta [] Ev.k = "reprs" -> VerdictReprs
